@@ -18,6 +18,7 @@ type watchRoles struct {
 	register   *ssa.Function // inserts into the subscriber map
 	remover    *ssa.Function // deletes from the subscriber map and closes the channel
 	fanout     *ssa.Function // non-blocking send over the subscriber map
+	hubLoop    *ssa.Function // receives from the broadcast channel and (directly or through fanout) fans out
 	cacheAdd   *ssa.Function // called by the sequencer with the new event
 	cacheFind  *ssa.Function // other method of the cache type, called by Watch
 	watchImpl  *ssa.Function // Backend.Watch implementation
@@ -102,14 +103,37 @@ func (p *Prog) watchRoles() *watchRoles {
 	if w.register == nil || w.remover == nil || w.fanout == nil {
 		brokenf("watch roles: registration / removal / fan-out functions of the hub not all found")
 	}
+	// hub loop: the function that receives from the broadcast channel in a loop and (transitively) fans out
+	w.hubLoop = w.fanout
+	for _, f := range p.AllFuncs {
+		if f.Pkg != bp || f.Synthetic != "" || f == w.fanout {
+			continue
+		}
+		recv := false
+		for _, b := range f.Blocks {
+			for _, ins := range b.Instrs {
+				if u, ok := ins.(*ssa.UnOp); ok && u.Op == token.ARROW && isEventSliceChan(u.X.Type()) {
+					recv = true
+				}
+			}
+		}
+		if !recv {
+			continue
+		}
+		for _, c := range callsIn(f) {
+			if c.Common().StaticCallee() == w.fanout {
+				w.hubLoop = f
+			}
+		}
+	}
 	// cache add: call in the sequencer whose argument is the proto.Event built there
 	evType := p.namedType("github.com/kubewharf/kubebrain-client/api/v2rpc", "Event")
 	for _, c := range callsIn(w.sequencer) {
 		sc := c.Common().StaticCallee()
-		if sc == nil || sc.Signature.Recv() == nil || len(c.Common().Args) != 2 {
+		if sc == nil || sc.Signature.Recv() == nil || len(c.Common().Args) != 2 || sc.Signature.Results().Len() != 0 {
 			continue
 		}
-		if al, ok := resolve(c.Common().Args[1]).(*ssa.Alloc); ok && types.Identical(al.Type().(*types.Pointer).Elem(), evType) {
+		if types.Identical(c.Common().Args[1].Type(), types.NewPointer(evType)) {
 			w.cacheAdd = sc
 		}
 	}
@@ -324,85 +348,76 @@ func checkC05(p *Prog, res *Result, tier string) {
 
 	// ---- R3 ----
 	{
-		f := w.fanout
-		// (a) no go statement reaching the remover
+		scope := []*ssa.Function{w.hubLoop}
+		if w.fanout != w.hubLoop {
+			scope = append(scope, w.fanout)
+		}
+		// (a) no go statement reaching the remover in the hub loop / fan-out
 		bad := false
-		for _, b := range f.Blocks {
-			for _, ins := range b.Instrs {
-				if g, ok := ins.(*ssa.Go); ok {
-					for _, callee := range p.calleesOf(g) {
-						if reachesFunc(p, callee, w.remover, 3) {
-							bad = true
-							res.bad("C05-R3", funcName(f)+": no asynchronous removal", p.pos(g.Pos()), "a subscriber that missed a batch is removed by a separate goroutine: until it runs, the next batch can still be delivered to that subscriber (stream continues past an undelivered event)")
+		for _, f := range scope {
+			for _, b := range f.Blocks {
+				for _, ins := range b.Instrs {
+					if g, ok := ins.(*ssa.Go); ok {
+						for _, callee := range p.calleesOf(g) {
+							if reachesFunc(p, callee, w.remover, 3) {
+								bad = true
+								res.bad("C05-R3", funcName(w.hubLoop)+": no asynchronous removal", p.pos(g.Pos()), "a subscriber that missed a batch is removed by a separate goroutine: until it runs, the next batch can still be delivered to that subscriber (stream continues past an undelivered event)")
+							}
 						}
 					}
 				}
 			}
 		}
 		if !bad {
-			res.ok("C05-R3", funcName(f)+": no asynchronous removal", p.pos(f.Pos()), "no go statement in the fan-out reaches the subscriber removal")
+			res.ok("C05-R3", funcName(w.hubLoop)+": no asynchronous removal", p.pos(w.hubLoop.Pos()), "no go statement in the hub loop / fan-out reaches the subscriber removal")
 		}
-		// (b) from the default branch of the non-blocking send, a synchronous removal is reachable before the next receive
-		var sel *ssa.Select
+		// (b) within one iteration of the hub loop, after the fan-out (the non-blocking send, or the call of the function
+		// containing it) a synchronous call of the subscriber removal is reachable before the next receive
+		f := w.hubLoop
+		var start ssa.Instruction
 		for _, b := range f.Blocks {
 			for _, ins := range b.Instrs {
-				if s, ok := ins.(*ssa.Select); ok && !s.Blocking {
-					sel = s
+				switch x := ins.(type) {
+				case *ssa.Select:
+					if !x.Blocking {
+						start = x
+					}
+				case *ssa.Call:
+					if x.Common().StaticCallee() == w.fanout && w.fanout != f {
+						start = x
+					}
 				}
 			}
 		}
 		construct := funcName(f) + ": dropped subscriber is removed before the next batch"
-		if sel == nil {
-			res.und("C05-R3", construct, "-", "non-blocking select not found")
+		if start == nil {
+			res.und("C05-R3", construct, "-", "fan-out point of the hub loop not found")
 		} else {
-			// default edge: index == <case> false for all cases -> find blocks dominated by idx != 0
-			var idx ssa.Value
-			for _, ref := range *sel.Referrers() {
-				if ex, ok := ref.(*ssa.Extract); ok && ex.Index == 0 {
-					idx = ex
-				}
+			isRecv := func(ins ssa.Instruction) bool {
+				u, ok := ins.(*ssa.UnOp)
+				return ok && u.Op == token.ARROW
 			}
-			var start *ssa.BasicBlock
-			for _, b := range f.Blocks {
-				iff := ifOf(b)
-				if iff == nil {
-					continue
-				}
-				for s := 0; s < 2; s++ {
-					cf := edgeFact(edge{b, s})
-					if cf.X != nil && resolve(cf.X) == idx && isZeroConst(cf.Y) && ((cf.Op == token.EQL && !cf.Want) || (cf.Op == token.NEQ && cf.Want)) {
-						start = b.Succs[s]
-					}
-				}
-			}
-			if start == nil {
-				res.und("C05-R3", construct, p.pos(sel.Pos()), "default branch of the non-blocking send not found")
-			} else {
-				isRecv := func(ins ssa.Instruction) bool {
-					u, ok := ins.(*ssa.UnOp)
-					return ok && u.Op == token.ARROW
-				}
-				found := false
-				searchFrom(start, 0, searchOpts{
-					stop: isRecv,
-					bad: func(ins ssa.Instruction) bool {
-						c, ok := ins.(*ssa.Call)
-						if ok {
-							for _, callee := range p.calleesOf(c) {
-								if reachesFunc(p, callee, w.remover, 2) {
-									found = true
-									return true
-								}
+			found := false
+			sp0 := posOf(start)
+			searchFrom(sp0.b, sp0.i+1, searchOpts{
+				stop: isRecv,
+				bad: func(ins ssa.Instruction) bool {
+					c, ok := ins.(*ssa.Call)
+					if ok {
+						for _, callee := range p.calleesOf(c) {
+							if reachesFunc(p, callee, w.remover, 2) {
+								found = true
+								return true
 							}
 						}
-						return false
-					},
-				})
-				if found {
-					res.ok("C05-R3", construct, p.pos(sel.Pos()), "a synchronous call of the subscriber removal is reachable from the default branch before the next receive from the broadcast channel")
-				} else {
-					res.bad("C05-R3", construct, p.pos(sel.Pos()), "the default branch of the non-blocking send never removes the subscriber synchronously before the next batch is read: the watch continues past a batch it did not receive")
-				}
+					}
+					return false
+				},
+			})
+			if found {
+				res.ok("C05-R3", construct, p.pos(start.Pos()), "a synchronous call of the subscriber removal is reachable after the fan-out before the next receive from the broadcast channel")
+			} else {
+				res.bad("C05-R3", construct, p.pos(start.Pos()), "after a non-blocking send failed the subscriber is never removed synchronously before the next batch is read: the watch continues past a batch it did not receive")
 			}
 		}
 	}
@@ -451,7 +466,7 @@ func checkC05(p *Prog, res *Result, tier string) {
 		}
 		return n, pos
 	}
-	for _, t := range []*ssa.Function{w.sequencer, w.fanout} {
+	for _, t := range []*ssa.Function{w.sequencer, w.hubLoop} {
 		n, pos := goCount(t)
 		construct := funcName(t) + ": started by exactly one go statement"
 		if n == 1 {
@@ -549,35 +564,28 @@ func reachesFunc(p *Prog, from, target *ssa.Function, depth int) bool {
 func checkCacheBeforeBroadcast(p *Prog, r *Roles, w *watchRoles, res *Result) {
 	seq := w.sequencer
 	evType := p.namedType("github.com/kubewharf/kubebrain-client/api/v2rpc", "Event")
-	// the event built by the sequencer
-	var ev *ssa.Alloc
+	// the event placed into the outgoing batch: the *proto.Event stored into an element of the batch slice
+	// (built in place or by a helper)
+	var batchStore *ssa.Store
+	var ev ssa.Value
 	for _, b := range seq.Blocks {
 		for _, ins := range b.Instrs {
-			if al, ok := ins.(*ssa.Alloc); ok && types.Identical(al.Type().(*types.Pointer).Elem(), evType) {
-				ev = al
+			st, ok := ins.(*ssa.Store)
+			if !ok {
+				continue
 			}
-		}
-	}
-	if ev == nil {
-		res.und("C05-R2", funcName(seq), "-", "event construction not found")
-		return
-	}
-	// store of the event into the outgoing batch: Store{Addr: IndexAddr, Val: ev}
-	var batchStore *ssa.Store
-	for _, ref := range *ev.Referrers() {
-		if st, ok := ref.(*ssa.Store); ok && st.Val == ssa.Value(ev) {
-			if _, ok := st.Addr.(*ssa.IndexAddr); ok {
-				batchStore = st
+			if _, isIdx := st.Addr.(*ssa.IndexAddr); isIdx && types.Identical(st.Val.Type(), types.NewPointer(evType)) {
+				batchStore, ev = st, resolve(st.Val)
 			}
 		}
 	}
 	if batchStore == nil {
-		res.und("C05-R2", funcName(seq), p.pos(ev.Pos()), "store of the event into the outgoing batch not found")
+		res.und("C05-R2", funcName(seq), "-", "store of an event into the outgoing batch not found")
 		return
 	}
 	isAdd := func(ins ssa.Instruction) bool {
 		c, ok := ins.(*ssa.Call)
-		return ok && c.Common().StaticCallee() == w.cacheAdd && resolve(c.Common().Args[1]) == ssa.Value(ev)
+		return ok && c.Common().StaticCallee() == w.cacheAdd && resolve(c.Common().Args[1]) == ev
 	}
 	// from the construction of the event: the cache insert must come before any broadcast send / next slot load
 	var loadCall ssa.Instruction
@@ -590,9 +598,11 @@ func checkCacheBeforeBroadcast(p *Prog, r *Roles, w *watchRoles, res *Result) {
 	sp := posOf(batchStore)
 	// search both from the store (insert after store) and accept insert before the store in the same straight line
 	insertedBefore := false
-	for _, ref := range *ev.Referrers() {
-		if i, ok := ref.(ssa.Instruction); ok && isAdd(i) && instrDominates(i, batchStore) {
-			insertedBefore = true
+	if refs := ev.Referrers(); refs != nil {
+		for _, ref := range *refs {
+			if isAdd(ref) && instrDominates(ref, batchStore) {
+				insertedBefore = true
+			}
 		}
 	}
 	construct := funcName(seq) + ": cache insert before broadcast"
